@@ -16,7 +16,7 @@ component of the machine record, in the component's own vocabulary:
 -/
 namespace Tetro.BoardTrace
 open Tetro.Model Tetro.Model.Decoder Tetro.Model.Machine Tetro.Model.Whole
-open Tetro.BusRoute Tetro.WholeProofs Tetro.BoardOam Tetro.GhostBus Tetro.C17Whole
+open Tetro.BusRoute Tetro.WholeProofs Tetro.BoardOam Tetro.GhostBus Tetro.C17Whole Tetro.WholeNoCrash
 
 /-! ### the CPU's part of a cycle, as a fold over its bus writes -/
 
@@ -366,5 +366,46 @@ theorem fold_filterMap {α β X : Type} (g : α → Option β) (f : X → α →
   | cons a wr ih =>
     rw [List.foldl_cons, ih, List.filterMap_cons, h]
     cases g a <;> rfl
+
+/-! ### runs -/
+
+theorem run_add (a b : Nat) (w : Whole) : Whole.run (a + b) w = Whole.run b (Whole.run a w) := by
+  induction a generalizing w with
+  | zero => rw [Nat.zero_add]; rfl
+  | succ a ih =>
+    rw [Nat.add_right_comm]
+    exact ih w.cycle
+
+/-- a machine that is running after `n` cycles was running all the way -/
+theorem running_prefix (k n : Nat) (hk : k ≤ n) (w : Whole) (h : (Whole.run n w).stopped = false) :
+    (Whole.run k w).stopped = false := by
+  obtain ⟨d, rfl⟩ : ∃ d, n = k + d := ⟨n - k, by omega⟩
+  rw [run_add] at h
+  clear hk
+  generalize Whole.run k w = x at h
+  induction d generalizing x with
+  | zero => exact h
+  | succ d ih => exact (running_before x (ih x.cycle h)).1
+
+/-- a constructed machine stops only by `os.Exit` on an undefined opcode -/
+theorem constructed_running (img : Cart.Image) (wr au : Bool) (w0 : Whole)
+    (hc : Whole.construct img wr au = some w0) (n : Nat) :
+    (Whole.run n w0).stopped = (Whole.run n w0).cpu.regs.exited := by
+  obtain ⟨h1, h2⟩ := c11_whole_never_panics img wr au w0 hc n
+  unfold Whole.stopped
+  rw [h1, h2]
+  rfl
+
+
+theorem cart_run_append (c : Cart.Mbc) (a b : List Cart.Op) :
+    Cart.run c (a ++ b) = (Cart.run c a).bind fun c' => Cart.run c' b := by
+  induction a generalizing c with
+  | nil => rfl
+  | cons op a ih =>
+    simp only [List.cons_append, Cart.run]
+    cases Cart.step c op with
+    | none => rfl
+    | some c1 => exact ih c1
+
 
 end Tetro.BoardTrace
